@@ -3,6 +3,7 @@ import FxVerif.Proofs.C16Sem
 import FxVerif.Proofs.C16Store
 import FxVerif.Model.C16Tx
 import FxVerif.Proofs.C16Dep
+import FxVerif.Gen.C16Proto
 /-!
 # C16 — privileged messages take effect only when issued by the governance authority
 
@@ -369,6 +370,14 @@ theorem no_route_rejected {σ : Type} (P : Program) (env : Env) (auth : Str) (W 
       | work _ _ => simp [needsRouteBody] at hn
 
 /-! ### who has to have signed: transactions, `MsgExec`, proposals -/
+
+/-- obligation over the regenerated .proto facts: every message of /repo/proto with a `string authority` field declares
+exactly that field as its signer (`option (cosmos.msg.v1.signer) = "authority"`), which is what makes `txRun` / `authzRun` /
+`proposalRun` take the decoded authority as the account that has to have signed (the compiled descriptors are what
+runs: the harness compares `GetMsgV1Signers` of the running codec with the decoded authority for every such message) -/
+theorem authority_messages_signed_by_authority :
+    FxVerif.Gen.C16Proto.msgs.all (fun m => !m.2.2 || m.2.1 == ["authority"]) = true ∧
+    (FxVerif.Gen.C16Proto.msgs.filter (fun m => m.2.2)).length ≥ 11 := by decide
 
 /-- through the router, an authority that does not decode to the account the keeper's authority decodes to is rejected
 with the state untouched (contrapositive of `routed_accepts_only_governance_account_all`) -/
